@@ -284,6 +284,26 @@ impl TypeChecker {
         }
     }
 
+    /// Follow the `extends` chain starting at `start`; true if it reaches `target` (every class is visited once).
+    fn extends_chain_reaches(&self, start: &str, target: &str) -> bool {
+        let mut seen: Vec<String> = Vec::new();
+        let mut current = Some(start.to_string());
+        while let Some(name) = current {
+            if name == target {
+                return true;
+            }
+            if seen.contains(&name) {
+                return false;
+            }
+            current = match self.lookup_type_info(&name) {
+                Some(TypeInfo::Class(info)) => info.extends.clone(),
+                _ => None,
+            };
+            seen.push(name);
+        }
+        false
+    }
+
     fn check_class(&mut self, class: &ClassDecl) {
         self.symbols.enter_scope(ScopeKind::Class);
 
@@ -294,6 +314,11 @@ impl TypeChecker {
         if let Some(base) = &class.extends {
             if self.symbols.lookup(base).is_none() {
                 self.errors.push(errors::unknown_symbol(base, Span::default()));
+            } else if self.extends_chain_reaches(base, &class.name) {
+                self.errors.push(crate::frontend::diagnostics::CompileError::type_error(
+                    format!("Class '{}' inherits from itself (cyclic `extends`)", class.name),
+                    Span::default(),
+                ));
             }
         }
 
